@@ -19,7 +19,7 @@ EXPLANATION = (
     "are derived (zBot, z_top, zMid) are consumed only by the enumerated groundwater routines; the initial-water-content "
     "interpolation takes its mid-depths from the base column dzsum. C18.d (typestate): the scalars fill_nan derives from the frame (zSoil, nComp) are read, in every "
     "function that receives the user's Soil, only on paths that pass fill_nan() since the entry and since every dz update, and such a "
-    "function returns with the Soil fresh - so the deepening loop tests the real depth of the profile. C18.e: add_layer's two branches compare a depth from the surface (thickness, resp. thickness + a value read from dzsum) with the compartment bottoms under the same rounding (sibling agreement + quantity kinds). C18.f: the per-layer initial water content is written into layer depth_layer[i] with the value computed for request i (same index), never by position. C18.g: the requested layers are completed over all layers of the profile before the per-layer fill (an unlisted layer takes the last request, it does not keep the 0 of the allocation). C18.h: with a water table the adjusted field capacity replaces the initial content elementwise, only where field capacity was requested. C18.i: the depth points of the 'Depth' method reach np.interp in ascending order (permuted by an argsort, values with the same permutation). C18.j: every column add_layer writes for a layer is forward-filled by fill_nan over the compartments below the specified layers. C18.k: the thickness column is stored as floats (the deepening adds 0.1 m to single cells). C18.l (T-ARGS): no call of initialisation or of the Soil class binds two positional arguments crosswise (layer properties th_wp / th_fc / th_s, sand / clay). NOT decided: arbitrary custom dz, pedotransfer "
+    "function returns with the Soil fresh - so the deepening loop tests the real depth of the profile. C18.e: add_layer's two branches compare a depth from the surface (thickness, resp. thickness + a value read from dzsum) with the compartment bottoms under the same rounding (sibling agreement + quantity kinds). C18.f: the per-layer initial water content is written into layer depth_layer[i] with the value computed for request i (same index), never by position. C18.g: the requested layers are completed over all layers of the profile before the per-layer fill (an unlisted layer takes the last request, it does not keep the 0 of the allocation). C18.h: with a water table the adjusted field capacity replaces the initial content elementwise, only where field capacity was requested. C18.i: the depth points of the 'Depth' method reach np.interp in ascending order (permuted by an argsort, values with the same permutation). C18.j: every column add_layer writes for a layer is forward-filled by fill_nan over the compartments below the specified layers. C18.k: the thickness column is stored as floats (the deepening adds 0.1 m to single cells). C18.l (T-ARGS): no call of initialisation or of the Soil class binds two positional arguments crosswise (layer properties th_wp / th_fc / th_s, sand / clay). C18.m: in the loops that evaluate an initial-water-content request point by point, the layer used to look up the hydraulic properties is defined in the same iteration on every path to the lookup (no definition from before the loop or from the previous iteration reaches it). NOT decided: arbitrary custom dz, pedotransfer "
     "ranges, numeric interpolation of initial water content.")
 
 DERIVED_CONSUMERS_OK = {
@@ -817,7 +817,53 @@ def rule_h(chk, prog, rule="C18.h"):
     chk.floor(rule, n, 1, "stores of the initial water content from the adjusted field capacity")
 
 
+def rule_m(chk, prog):
+    """C18.m (the requested value of each depth point / layer comes from that point's own layer): in the loops of the initial-conditions
+    routine that evaluate a request point by point, the layer used to look up the hydraulic properties (`hydf.loc[layer]`) is defined in
+    the same iteration on every path to the lookup - no definition from before the loop or from the previous iteration can reach it (a
+    default hoisted out of the loop, or a branch that assigns the layer on one side only, leaves the previous point's layer in force)."""
+    from ..rdef import flow_of
+    fi = prog.find_func("read_model_initial_conditions")
+    flow = flow_of(fi)
+    cfg = flow.cfg
+    where = f"{fi.module}:{fi.qualname}"
+    chk.fn(fi.key)
+    n = 0
+    for loop in walk_no_nested(fi.node):
+        if not isinstance(loop, ast.For):
+            continue
+        head = next((k for k in cfg.live_nodes() if k.kind == "for" and k.ast is loop), None)
+        if head is None:
+            continue
+        body_entries = [t for t, l in head.succs if l == "body"]
+        for x in ast.walk(loop):
+            if not (isinstance(x, ast.Subscript) and isinstance(x.value, ast.Attribute) and x.value.attr in ("loc", "iloc") and isinstance(x.slice, ast.Name)
+                    and isinstance(x.ctx, ast.Load)):
+                continue
+            L = x.slice.id
+            if L == getattr(loop.target, "id", None):
+                continue                                  # indexed by the loop variable itself
+            at = flow.node_of(x)
+            if at is None:
+                continue
+            body_defs = {flow.stmt_node.get(id(a)) for a in ast.walk(loop) if isinstance(a, ast.Assign) and any(isinstance(t, ast.Name) and t.id == L for t in a.targets)}
+            body_defs.discard(None)
+            if not body_defs:
+                continue                                  # constant over the loop: not a per-point lookup
+            n += 1
+            construct = f"{norm(x)} in `for {norm(loop.target)} in {norm(loop.iter)[:40]}`"
+            stale = any(b not in body_defs and cfg.paths_exist_avoiding(b, at, body_defs) for b in body_entries) or any(b == at for b in body_entries)
+            if stale:
+                chk.violation("C18.m", where, construct, f"a path through the loop body reaches this lookup without defining `{L}` in the same iteration: the layer of the previous "
+                              "point (or a default set before the loop) is used - the value of a point at or below the profile bottom comes from another layer's properties",
+                              loc=fi.loc(x))
+            else:
+                chk.ok("C18.m", where, construct, f"`{L}` is defined in the same iteration on every path to the lookup")
+    chk.floor("C18.m", n, 4, "per-point layer lookups in the initial-conditions loops")
+
+
 def run(chk, prog, tier):
+    rule_m(chk, prog)
     from ._args import arg_swaps
     from ..common import INIT_ROOT
     chk.floor("C18.l", arg_swaps(chk, prog, "C18.l", set(prog.reachable_from(INIT_ROOT)) | {k for k, f in prog.funcs.items() if f.cls == "Soil"}), 15,
